@@ -298,8 +298,17 @@ class Validator:
                 lo = min(s.addr for s in tsecs)
                 hi = max(s.addr + s.size for s in tsecs)
                 al = max(max(s.addralign for s in tsecs), 1)
-                if tls.vaddr != lo:
+                if tls.align > 1 and pow2(tls.align) and tls.vaddr % tls.align:
+                    # The x86-64 TLS ABI computes TP offsets as if the template started p_align-aligned and glibc's
+                    # static start-up (csu/libc-tls.c) places it so; GNU ld and lld always align the first TLS section
+                    # to the segment's alignment.
+                    raise Bad("PT_TLS-vaddr-misaligned", f"PT_TLS p_vaddr={tls.vaddr:#x} is not a multiple of its "
+                              f"p_align={tls.align:#x} (TLS sections: "
+                              f"{[(s.name, hex(s.addr), s.size, s.addralign) for s in e.sections if s.flags & E.SHF_TLS]})")
+                lo_all = min(s.addr for s in e.sections if s.flags & E.SHF_TLS and s.flags & E.SHF_ALLOC)
+                if tls.vaddr not in (lo, lo_all):
                     raise Bad("PT_TLS-start", f"PT_TLS starts at {tls.vaddr:#x}, TLS sections start at {lo:#x}")
+                lo = tls.vaddr
                 up = (hi - lo + max(tls.align, 1) - 1) // max(tls.align, 1) * max(tls.align, 1)
                 if not (hi - lo <= tls.memsz <= max(up, hi - lo)):
                     raise Bad("PT_TLS-memsz", f"PT_TLS memsz={tls.memsz:#x}, TLS sections span {hi - lo:#x}")
@@ -514,6 +523,8 @@ class C04(Check):
             return None
         if not case["gc"]:
             return "script-nogc/sh-link"
+        if case["script_base"] == 0x400000:
+            return "script/load-order"
         if not case["norelro"] and (case["ptrs"] or any(s["flags"] == "relro" and s["size"] for s in secs)):
             return "script/relro-misses-section"
         return None
